@@ -55,8 +55,9 @@ Lemma geneq_BitmapConc_is_bit_set : forall g i,
   | _ => False
   end.
 Proof.
-  intros. unfold prog_of, Gen.AtomicBitmap.is_bit_set. destruct (i <? g_size g); [|reflexivity].
-  intros ld. rewrite shl64_bit_mask. reflexivity.
+  intros. unfold prog_of, Gen.AtomicBitmap.is_bit_set. geneq_norm.
+  destruct (i <? g_size g); cbn [negb]; [|reflexivity].
+  intros ld. rewrite ?shl64_bit_mask. reflexivity.
 Qed.
 
 (* set_reset_addr_range: the early return and the (first_bit, last_bit) the loop runs over *)
@@ -71,7 +72,7 @@ Proof.
   intros. unfold Gen.AtomicBitmap.range_bits, set_reset_prog.
   destruct (N.eqb_spec len 0) as [H0|H0].
   - eexists; split; reflexivity.
-  - rewrite psub_Val by lia. cbn [bind]. eexists; split; reflexivity.
+  - dassert_discharge. cbn [bind]. rewrite psub_Val by lia. cbn [bind]. eexists; split; reflexivity.
 Qed.
 
 (* ONE iteration of the bit loop for n <= last_bit *)
